@@ -191,6 +191,16 @@ class Report:
           'paths': sum(u.paths for u in pr.units),
           'obligation_samples': samples,
       })
+      # mechanical scan: contracts of repository functions that are used at
+      # call sites in this run but whose bodies are not verified
+      from mmverif.engine import specs as _specs
+      assumed = []
+      for short, sp in sorted(_specs.REGISTRY.items()):
+        for q, c in sorted(sp.contracts.items()):
+          if getattr(c, 'assumed', None):
+            assumed.append('%s.%s: %s' % (short, q, c.assumed))
+      if assumed:
+        cov['assumed_contracts'] = assumed
     # ---------------- bounded part
     if self.mon is not None:
       m = self.mon
@@ -341,8 +351,47 @@ def run_property(mod, tier, seed):
           rep.proof.obligations[i] = (o, nr)
   rep.lean = [run_lean(f) for f in getattr(mod, 'LEAN', ())]
   if hasattr(mod, 'monitor'):
-    rep.mon = mod.monitor(tier, seed)
+    try:
+      rep.mon = mod.monitor(tier, seed)
+    except Exception as e:  # pylint: disable=broad-except
+      crash = crash_in_code_under_test(e)
+      if crash is None:
+        raise
+      # the run-time contract harness was interrupted by an exception raised
+      # inside the repository code on one of its (valid) inputs: the observed
+      # function does not deliver what the property is about
+      m = MonitorResult('monitor interrupted by an exception of the code '
+                        'under test')
+      m.bound = 'interrupted'
+      m.violation('unexpected-exception/%s' % crash['type'], crash)
+      rep.mon = m
   return rep
+
+
+def crash_in_code_under_test(exc):
+  """If the traceback of `exc` (including a worker's remote traceback) ends
+  inside the repository tree - i.e. after the last frame of /verif there is a
+  frame of the code under test - returns a description, else None."""
+  import traceback
+  text = ''.join(traceback.format_exception(type(exc), exc,
+                                            exc.__traceback__))
+  repo = os.path.realpath(common.REPO)
+  hit = []
+  # a worker's traceback arrives as the text of the cause: look at every
+  # chained block separately
+  for block in text.split('The above exception was the direct cause'):
+    frames = [l.strip() for l in block.splitlines()
+              if l.strip().startswith('File "')]
+    last_verif = max([i for i, l in enumerate(frames)
+                      if '/mmverif/' in l] or [-1])
+    tail = frames[last_verif + 1:]
+    hit += [l for l in tail if ('File "%s/' % repo) in l or
+            ('File "%s/' % common.REPO) in l]
+  if not hit:
+    return None
+  return {'type': type(exc).__name__, 'message': str(exc)[:300],
+          'raised_at': hit[-1][:300], 'traceback_tail': text[-2500:],
+          'source_root': common.REPO}
 
 
 def run_lean(fname):
